@@ -103,8 +103,14 @@ func c18Eval(r *core.Run, c *c18Case) {
 		}
 	}
 	for _, g := range s.Goroutines {
+		calls := make([]*stack.Call, 0, len(g.Stack.Calls)+1)
 		for ci := range g.Stack.Calls {
-			cl := &g.Stack.Calls[ci]
+			calls = append(calls, &g.Stack.Calls[ci])
+		}
+		for ci := range g.CreatedBy.Calls {
+			calls = append(calls, &g.CreatedBy.Calls[ci])
+		}
+		for _, cl := range calls {
 			f := byRemote[cl.RemoteSrcPath]
 			if f == nil {
 				continue
